@@ -41,6 +41,8 @@ def gen_cases(ctx):
             for p in ps:
                 if rng.random() < 0.7:
                     p["single"] = True
+        if rng.random() < 0.25:      # some notifications are refused by a later subscriber (the caller carries on)
+            cfg = dict(cfg, refuse=sorted(rng.sample(range(12), 2)))
         cases.append((cfg, G.rand_ops(rng, cfg, rng.randint(3, 10 if ctx.quick else 25), premote=0.4, multi_single=True)))
     return cases
 
@@ -57,6 +59,7 @@ def work(case):
         if op[0] == "remote":
             c0, h0, _ = dec.snapshot()
             remembered = {r.run_id for r in c0} | {r.run_id for r in h0}
+        dec.verif_boom.armed = k in cfg.get("refuse", ())      # a later subscriber refuses this notification
         o, lists = SD.apply_op(dec, rec, op)
         out += o
         if lists is None:
